@@ -177,7 +177,9 @@ impl Energy {
         match self {
             Energy::Prod(_) => false,
             Energy::Used(e) => e.service.is_nepb(),
-            Energy::Aux(e) => e.service.is_nepb(),
+            // Los auxiliares de sistemas sin servicios EPB (p.e. solo cogeneración) se contabilizan
+            // como consumo no EPB en el balance
+            Energy::Aux(e) => !e.service.is_epb(),
             Energy::Out(_) => false,
         }
     }
